@@ -354,13 +354,15 @@ func runSigCase(ci interface{}, rec *pbt.Rec) *pbt.Failure {
 	return nil
 }
 
-func TestC07(t *testing.T) {
-	(&pbt.Check{
+func checkC07() *pbt.Check {
+	return &pbt.Check{
 		ID:          "C07",
 		Rule:        "signer sets (0..150 members incl. duplicates, any uint64 powers), batches (0..100 transfers, amounts/fees up to 2^256-1, any 20-byte token) and contract calls (0..5 tokens/fees, payload 0..2048 bytes, scope 0..32 bytes) with gravity ids of 0..32 bytes and nonces/timeouts over the whole uint64 range with boundary bias; judged by an independent abi.encode+keccak and, in a third of the cases, by the real Hub2 bytecode; non-trivial = arrays of length >=2, or an integer >= 2^63, or a payload >= 33 bytes; distinct = distinct case JSON",
 		Gen:         genSigCase,
 		New:         func() interface{} { return &SigCase{} },
 		Run:         runSigCase,
 		Assumptions: []string{"the committed bytecode in solidity/contracts/Hub2.go is the compilation of Hub2.sol (no solc in the sandbox)", "the contract is asked only when it would reach its signature check (timeout above the block, nonce > 0)"},
-	}).Main(t)
+	}
 }
+
+func TestC07(t *testing.T) { checkC07().Main(t) }
